@@ -166,6 +166,9 @@ struct Ctx {
 			log += '\n';
 		}
 	}
+	// generator feature level (see lib/vlib.py FEAT): replay files saved before a feature existed carry a lower
+	// level (or none = 0) and are decoded the way they were found
+	bool feat(long level) const { return param("feat", 0) >= level; }
 	long param(const char *k, long def) const
 	{
 		if (!params)
